@@ -10,7 +10,7 @@ import tlc
 from checks import tracebase, cropfam
 
 PROP = "C19"
-MCS = [("MC_Water.tla", "MC_Water_q1.cfg", 300)]
+MCS = [("MC_Water.tla", "MC_Water_q1.cfg", 1500)]
 
 
 def far_pairs(tier, seed):
